@@ -1,13 +1,14 @@
 import PilotaModel.Base.Sexp
 import PilotaModel.Idl.Parser
 import PilotaModel.Idl.Printer
+import PilotaModel.Idl.WF
 /-
   Line-protocol verbs of track Idl (C15, C16).
 
     idl-parse <kind> <hex of UTF-8 text>            model parser on the text
         -> ok <remaining chars> <ast> | err | fail | panic | fuel
     idl-rt <file-ast> <layout> <hex text>           as `idl-parse file`, plus: is the text the model's
-        -> <parse answer> render=<0|1>               `render layout ast`?
+        -> <parse answer> render=<0|1> wf=<0|1>      `render layout ast`?  is the AST `File.wf`?
     idl-alnum <lo> <hi>                             `isAlnumU` over code points lo..hi-1
         -> ok <count> <checksum>
     idl-lower                                        characters whose lower-case form is "e"
@@ -269,7 +270,10 @@ def answer (items : List Sexp) : Option String := do
     let lay ← items[2]? >>= layoutOf
     let text ← items[3]? >>= textOfHex
     let r := if (render lay ast) = text then "1" else "0"
-    pure s!"{prS fileS (File.parse text)} render={r}"
+    pure s!"{prS fileS (File.parse text)} render={r} wf={if ast.wf then "1" else "0"}"
+  | "idl-wf" =>
+    let ast ← items[1]? >>= fileOf
+    pure s!"ok {" ".intercalate (ast.items.map fun i => if i.wf then "1" else "0")}"
   | "idl-alnum" =>
     let lo ← items[1]? >>= Sexp.asNat
     let hi ← items[2]? >>= Sexp.asNat
